@@ -109,10 +109,11 @@ Fixpoint cumsum_from (a : Z) (l : list Z) : list Z :=
 
 Definition permute (perm : list nat) (l : list Z) : list Z := map (fun i => nth i l 0) perm.
 
-(* None = IndexError (ts.times()[0] of an empty series) *)
+(* an empty series is returned unchanged (9bcff6e; before it, ts.times()[0] raised IndexError); the option
+   type is kept for the driver interface: the call never raises *)
 Definition shuffle_ts (ts : list Z) (perm : list nat) : option (list Z * iset) :=
   match ts with
-  | [] => None
+  | [] => Some (mk_ts [] None)
   | t0 :: _ => Some (mk_ts (t0 :: cumsum_from t0 (permute perm (diffs ts))) None)
   end.
 
